@@ -167,3 +167,41 @@ pub fn run(repeats: u64, n: u64) -> (u64, u64, u64, u64, Vec<String>) {
     msgs.extend(pres.iter().filter(|r| !r.0).map(|r| format!("PLANTED DEFECT MISSED {}", r.1)));
     (res.len() as u64, false_rej, pres.len() as u64, missed, msgs)
 }
+
+/// Assumption behind the exact enumerations of C08 / C10: rand maps a forced word v to floor(v * range / 2^b)
+/// (`random_range`: the word ceil(t 2^b / range); `Uniform`: the same + 1). Returns the mismatches found.
+pub fn uniform_int_mapping() -> Vec<String> {
+    use crate::rng::VRng;
+    use rand::distr::{Distribution, Uniform};
+    use rand::RngExt;
+    let mut bad = vec![];
+    for &range in &[1u64, 2, 3, 7, 10, 255, 1000, 65535, 65536] {
+        for t in (0..range).step_by((range / 17).max(1) as usize).chain([range - 1]) {
+            let t128 = t as u128;
+            let v32 = ((t128 << 32) + range as u128 - 1) / range as u128;
+            let v64 = ((t128 << 64) + range as u128 - 1) / range as u128;
+            let mut r = VRng::from_env(1);
+            r.force(0, (v32 as u64) << 32);
+            r.begin_call();
+            let a: u32 = r.random_range(0..range as u32);
+            if a as u64 != t || r.call_words != 1 {
+                bad.push(format!("random_range::<u32>(0..{range}) with the word for {t} returned {a} after {} words", r.call_words));
+            }
+            let mut r = VRng::from_env(1);
+            r.force(0, v64 as u64);
+            r.begin_call();
+            let a: u64 = r.random_range(0..range);
+            if a != t || r.call_words != 1 {
+                bad.push(format!("random_range::<u64>(0..{range}) with the word for {t} returned {a} after {} words", r.call_words));
+            }
+            let mut r = VRng::from_env(1);
+            r.force(0, ((v32 as u64) + 1) << 32);
+            r.begin_call();
+            let a: u32 = Uniform::new(0u32, range as u32).unwrap().sample(&mut r);
+            if a as u64 != t || r.call_words != 1 {
+                bad.push(format!("Uniform::<u32>::new(0, {range}) with the word for {t} (+1) returned {a} after {} words", r.call_words));
+            }
+        }
+    }
+    bad
+}
